@@ -43,7 +43,7 @@ func (c c13) Generate(seed uint64, tier string, idx int) *core.Plan {
 		// entropy-fault enumeration: entry point x read position x fault kind
 		for op := 0; op < 6; op++ {
 			for k := 0; k < 2; k++ {
-				for _, f := range [][2]int64{{1, 0}, {1, 1}, {1, 2}, {2, 0}, {2, 1}, {2, 5}, {2, 31}, {3, 1}, {3, -1}, {3, -2}, {3, 7}, {4, 1}, {4, 3}} {
+				for _, f := range [][2]int64{{1, 0}, {1, 1}, {1, 2}, {2, 0}, {2, 1}, {2, 5}, {2, 31}, {3, 1}, {3, -1}, {3, -2}, {3, 7}, {4, 1}, {4, 3}, {5, 0x00}, {5, 0xff}, {5, 0x01}} {
 					p.Steps = append(p.Steps, core.Step{Op: "ent", A: []int64{int64(op), int64(k), f[0], f[1], int64(r.Intn(129)), int64(r.Intn(1 << 30))}})
 				}
 			}
@@ -71,11 +71,14 @@ func mkFault(kind, param int64, k int) entropy.Fault {
 		return entropy.Fault{Kind: entropy.ShortAt, K: k, Param: int(param)}
 	case 4:
 		return entropy.Fault{Kind: entropy.StallAt, K: k, Param: int(param)}
+	case 5:
+		// read k delivers degenerate bytes (all 0x00 / 0xFF / 0x01); any further read fails
+		return entropy.Fault{Kind: entropy.ValueThenErr, K: k, Param: int(param), Err: entErrs[2]}
 	}
 	return entropy.Fault{}
 }
 
-var faultName = map[int64]string{1: "E-ERR", 2: "E-PARTIAL", 3: "E-SHORT", 4: "E-STALL"}
+var faultName = map[int64]string{1: "E-ERR", 2: "E-PARTIAL", 3: "E-SHORT", 4: "E-STALL", 5: "E-VALUE+ERR"}
 var entryPoint = []string{"GenerateKey", "Sign", "SignASN1", "PrivateKey.Sign", "BlindKeySign", "BlindKeySignWithContext"}
 
 func forkKey(cv elliptic.Curve, seed int64) (*ecdsa.PrivateKey, *stdecdsa.PrivateKey) {
@@ -157,6 +160,43 @@ func (c c13) Execute(p *core.Plan) *core.Result {
 			}
 			res.FaultFired(fname, true)
 			res.Nontrivial(fmt.Sprintf("%s/%s/%s/%d@%d", cname, entryPoint[op], fname, st.Arg(3, 0), k))
+			if f.Kind == entropy.ValueThenErr {
+				// degenerate entropy followed by a failing source: either an error and no output, or —
+				// if the operation needed no further read — a result that is valid on its own
+				if err != nil {
+					if key != nil || r != nil || s != nil || sig != nil {
+						res.Violate(fmt.Sprintf("C13/output-with-error/%s/%s", entryPoint[op], fname), fmt.Sprintf("%s on %s: returned a key or signature together with the error %v", entryPoint[op], cname, err), si)
+					}
+					continue
+				}
+				switch {
+				case key != nil:
+					N := cv.Params().N
+					gx, gy := cv.ScalarBaseMult(new(big.Int).Mod(key.D, N).Bytes())
+					if key.D.Sign() <= 0 || key.D.Cmp(N) >= 0 || key.X == nil || gx.Cmp(key.X) != 0 || gy.Cmp(key.Y) != 0 {
+						res.Violate("C13/invalid-key-without-error/"+fname, fmt.Sprintf("GenerateKey on %s with %#02x-valued entropy followed by a failing source returned no error and a private scalar outside [1, N-1] or a public key that is not D*G", cname, byte(f.Param)), si)
+					}
+				case r != nil && s != nil:
+					pubS := &sk.PublicKey
+					if op >= 4 {
+						ctxUse := ctx
+						if op == 4 {
+							ctxUse = nil
+						}
+						if bp, berr := ecdsa.BlindPublicKeyWithContext(cv, &fk.PublicKey, bk, ctxUse); berr == nil {
+							pubS = &stdecdsa.PublicKey{Curve: cv, X: bp.X, Y: bp.Y}
+						}
+					}
+					if !stdecdsa.Verify(pubS, digest, r, s) {
+						res.Violate(fmt.Sprintf("C13/invalid-signature-without-error/%s/%s", entryPoint[op], fname), fmt.Sprintf("%s on %s under degenerate entropy returned no error and a signature crypto/ecdsa rejects", entryPoint[op], cname), si)
+					}
+				case sig != nil:
+					if !stdecdsa.VerifyASN1(&sk.PublicKey, digest, sig) {
+						res.Violate(fmt.Sprintf("C13/invalid-signature-without-error/%s/%s", entryPoint[op], fname), fmt.Sprintf("%s on %s under degenerate entropy returned no error and a signature crypto/ecdsa rejects", entryPoint[op], cname), si)
+					}
+				}
+				continue
+			}
 			absorbable := f.Kind == entropy.ShortAt || f.Kind == entropy.StallAt
 			if absorbable {
 				if err != nil {
